@@ -71,12 +71,17 @@ func (r *Reader) Read() (seq.Sequence, error) {
 	for {
 		var err error
 		if buff, isPrefix, err = r.r.ReadLine(); err != nil {
-			if err != io.EOF || r.working == nil {
+			if err != io.EOF || (r.working == nil && len(line) == 0) {
 				return nil, err
 			}
-			s, err = r.working, r.err
-			r.working = nil
-			return s, err
+			if len(line) == 0 {
+				s, err = r.working, r.err
+				r.working = nil
+				return s, err
+			}
+			// The input ended without a line terminator exactly at
+			// the end of a buffer-sized fragment; line is complete.
+			isPrefix = false
 		}
 		line = append(line, buff...)
 		if isPrefix {
